@@ -162,6 +162,19 @@ CHECKS = {
              '(quick) / 3 (thorough); D5 (splitlines) was found and repaired (fix: cfee5d8); texts with CR are the open '
              'known finding D5-CRLF (input signature).',
         design='5/C14'),
+    'C19': dict(
+        engine='spec/Timeout.tla (refinement of spec/PhaseExec.tla), spec/TimeoutExport.tla',
+        technique='TLC model checking (safety + liveness) of the executor refined with discrete time and a process '
+                  'sub-machine + replay of every case with real processes and wall-clock time',
+        text='TLC explores one program use at each of 29 places (phase x kind of use, four actors, stdin from a program) x '
+             'child behaviour (short, long, ignores SIGTERM) x five histories of timeout instructions x env in [setup], '
+             'and checks KilledWhenOver, NotKilledWhenUnder, StepIsHardError, CleanupStillRuns, BoundedReturn, removal of '
+             'the sandbox and Returns (liveness under fairness); each case is executed for real and verdict, failing '
+             'phase, cleanup marker, sandbox, liveness of the started process and time bounds are compared.',
+        note='Wall-clock bounds are generous (limit + 5 s) and timing-only verdicts must be confirmed by a second run; the '
+             'quick tier runs a selection (every place with a must-be-killed child), the thorough tier all 870 cases; '
+             'grandchildren of shells are outside the property.',
+        design='5/C19'),
 }
 
 NOT_YET = 'check not built yet (planned in DESIGN.md section 5); no claim is made'
